@@ -26,14 +26,14 @@ type c12Case struct {
 	Ops      []c12Op   `json:"ops"`
 }
 
-// destination names a worker may ask for. "other*" never have a sampler of their
+// destination names a worker may ask for. "west", "east" never have a sampler of their
 // own (-> __default__). "rules:prod:" is a legal map key / dataset name that
 // looks like the prefix refinery derives for the rule samplers of "prod".
-var c12LookupNames = []string{"prod", "staging", "other", "other2", "rules:prod:"}
+var c12LookupNames = []string{"prod", "staging", "west", "east", "rules:prod:"}
 
 // draw weights: prod and staging are asked for more often so that several
 // workers meet on one destination
-var c12LookupDraw = []string{"prod", "prod", "prod", "staging", "staging", "other", "other2", "rules:prod:"}
+var c12LookupDraw = []string{"prod", "prod", "prod", "staging", "staging", "west", "east", "rules:prod:"}
 
 var c12FieldLists = [][]string{{"a"}, {"b"}, {"a", "b"}, {"b", "a"}, {"a", "b", "c"}, {"a b"}}
 var c12Rates = []int{10, 20}
